@@ -81,7 +81,7 @@ def configs(tier):
 def _sk(name):
     st = ('power' if name.startswith('pw_') else 'product' if name.startswith('pr_')
           else 'nested' if name.startswith('nest_') else 'tensor')
-    if name in ('rn3', 'rn2', 'pw_rn2_2', 'nest_rn1_2x2', 'nest_rn2_2x2', 'rn2x2'):
+    if name in ('rn3', 'rn2', 'rn1', 'rn4', 'pw_rn2_2', 'nest_rn1_2x2', 'nest_rn2_2x2', 'rn2x2'):
         return st + ',unweighted'
     if name in ('rn3w2', 'rn2w2', 'pw_rn2w2_2', 'ud3', 'ud2', 'pw_ud2_2', 'pw_rn2_2_c'):
         return st + ',const-weighted'
